@@ -147,11 +147,13 @@ def gen_case(rng, tier, avoid):
             twin['bad'] = 'interrupted_add'
             twin['faults'] = [{'kind': 'interrupt', 'at_line': rng.randint(1, 80)}]
             ops.insert(ops.index(op), twin)
-    if rng.random() < 0.3:
-        # a rejected later assignment
-        cands = [op for op in ops if op.get('op') == 'add' and op.get('kind') == 'equipment' and not op.get('bad')]
-        if cands:
-            ops.append({'op': 'set', 'h': cands[0]['h'], 'attr': 'status', 'part': 'value', 'v': 9, 'c': 0, 'bad': 'bad_assignment'})
+    if rng.random() < 0.4:
+        # rejected later assignments (attribute values, units, name, origin reference, cast dtype of existing objects)
+        for _ in range(rng.choice([1, 1, 2])):
+            pos = rng.randint(4, len(ops))
+            bop = gen.rejected_assignment(rng, ops[:pos])
+            if bop:
+                ops.insert(pos, bop)
     mode = rng.choice(['plain', 'io_fault', 'io_fault', 'interrupt', 'data_error'])
     ext = None
     if rng.random() < 0.25 and mode != 'data_error':
@@ -162,6 +164,21 @@ def gen_case(rng, tier, avoid):
         for op in ops:
             merged.append(op if op.get('bad') else next(gi))
         ops = merged
+    if ext is None and mode != 'data_error' and rng.random() < 0.3:
+        # history: the file is written once (datasets possibly of other element types), then assignments are rejected, then the
+        # write under test brings the final data: what the first write derived must not be frozen by a rejected assignment
+        good, ext = gen.externalize([op for op in ops if not op.get('bad')], 'dict', rng, extras=False, permute=False)
+        merged, gi = [], iter(good)
+        for op in ops:
+            merged.append(op if op.get('bad') else next(gi))
+        ops = merged
+        first = {'op': 'write', 'fid': spec.fid, 'path': 'first.dlis', 'output_chunk_size': 1 << 20,
+                 'data': gen.data_variant(rng, ext) or ext}
+        ops.append(first)
+        for _ in range(rng.choice([1, 2])):
+            bop = gen.rejected_assignment(rng, ops, p_channel=0.8)
+            if bop:
+                ops.append(bop)
     params = {'mode': mode, 'ocs': gen.pick(rng, [['mrl', 0], ['mrl', 64], ['abs', 1 << 20]]), 'bad': bad_classes,
               'pick': [rng.random() for _ in range(24)], 'n_faults': TIERS[tier]['faults_per_case']}
     if mode == 'data_error':
@@ -190,7 +207,7 @@ def check_case(case, ex):
         if st is None:
             continue
         inv = st.get('inv')
-        if op.get('op') not in ('add', 'set'):
+        if op.get('op') not in ('add', 'set', 'set_prop'):
             continue
         if op.get('op') == 'add' and prev_lf != op.get('lf'):
             prev_inv, prev_lf = None, op.get('lf')
